@@ -177,3 +177,68 @@ func vpC18_O3() {
 		vpAssert("a key accepted by NewPublicKeyFromFile has parameters", pk2 != nil && pk2.Params != nil)
 	}
 }
+
+func init() {
+	vpHarnesses["vpC18_O5"] = vpC18_O5
+}
+
+// vpxFlawedKeyXML: a public key document with a 1024-bit modulus and one flaw: 0 none,
+// 1 no <Z>, 2 no <S>, 3 no <Bases>, 4 a negative base, 5 a negative Z.
+func vpxFlawedKeyXML(nbits, flaw int) string {
+	v := new(big.Int).Lsh(big.NewInt(1), uint(nbits-1))
+	v.Add(v, big.NewInt(12345))
+	z, s, bases := "<Z>5</Z>", "<S>7</S>", `<Bases num="2"><Base_0>3</Base_0><Base_1>9</Base_1></Bases>`
+	switch flaw {
+	case 1:
+		z = ""
+	case 2:
+		s = ""
+	case 3:
+		bases = ""
+	case 4:
+		bases = `<Bases num="2"><Base_0>3</Base_0><Base_1>-9</Base_1></Bases>`
+	case 5:
+		z = "<Z>-5</Z>"
+	}
+	return XMLHeader + `<IssuerPublicKey xmlns="http://www.zurich.ibm.com/security/idemix"><Counter>0</Counter><ExpiryDate>1700000000</ExpiryDate><Elements>` +
+		"<n>" + v.String() + "</n>" + z + s + bases + `</Elements><Features><Epoch length="432000"></Epoch></Features></IssuerPublicKey>`
+}
+
+// vpxPrivKeyXML: a private key document with the toy safe primes 23 and 47, minus one
+// element: 0 none, 1 <p>, 2 <q>, 3 <pPrime>, 4 <qPrime>.
+func vpxPrivKeyXML(missing int) string {
+	els := []string{"<p>23</p>", "<q>47</q>", "<pPrime>11</pPrime>", "<qPrime>23</qPrime>"}
+	body := ""
+	for i, e := range els {
+		if i+1 != missing {
+			body += e
+		}
+	}
+	return XMLHeader + `<IssuerPrivateKey xmlns="http://www.zurich.ibm.com/security/idemix"><Counter>0</Counter><ExpiryDate>1700000000</ExpiryDate><Elements>` + body + `</Elements></IssuerPrivateKey>`
+}
+
+// C18-O5: malformed key documents are refused with an error. A public key document
+// that lacks <Z>, <S> or the base list, or carries a negative number, is not
+// accepted; a private key document that lacks one of its four primes is refused -
+// in demo mode and outside it - and never makes the reader panic; the complete
+// documents are read.
+func vpC18_O5() {
+	if vpBool("privateKey") {
+		missing := vpChoose("missing", 5)
+		demo := vpBool("demo")
+		sk, err := NewPrivateKeyFromXML(vpxPrivKeyXML(missing), demo)
+		if missing == 0 {
+			vpAssert("a complete private key document is read", err == nil && sk != nil && sk.N != nil && sk.N.Cmp(big.NewInt(23*47)) == 0)
+		} else {
+			vpAssert("a private key document with a missing prime is refused", err != nil && sk == nil)
+		}
+		return
+	}
+	flaw := vpChoose("flaw", 6)
+	pk, err := NewPublicKeyFromBytes([]byte(vpxFlawedKeyXML(1024, flaw)))
+	if flaw == 0 {
+		vpAssert("a complete public key document is read", err == nil && pk != nil && pk.Z != nil && pk.S != nil && len(pk.R) == 2)
+	} else {
+		vpAssert("a public key document with a missing element or a negative number is refused", err != nil && pk == nil)
+	}
+}
